@@ -66,7 +66,7 @@ type Profile struct {
 // DefaultMechs is the broad mechanism mix.
 var DefaultMechs = map[string]int{
 	"same": 30, "diff": 22, "case": 8, "getter": 10, "nested": 10, "skip": 6, "map": 10, "conv": 10,
-	"literal": 4, "none": 5, "slice": 10, "unexported": 4, "embedded": 3, "ptrnested": 4, "blank": 2,
+	"literal": 4, "none": 5, "slice": 10, "unexported": 4, "embedded": 3, "ptrnested": 4, "blank": 2, "twin": 3,
 }
 
 // Broad is the profile used by C01/C02/C04/C05.
@@ -430,6 +430,38 @@ func (b *Builder) genField(ctx pairCtx, src, dst *SDecl, name, mech string) {
 		b.addProbe(ctx, name, mech, t.Expr, "", "")
 	case "slice":
 		b.genSlice(ctx, src, dst, name)
+	case "twin":
+		// case twins: an exported field and an unexported one that differ only in case, a notation on
+		// ONE of them (":map"/":literal"/":conv" destinations compare case-sensitively whatever the case rule)
+		if dst.Pkg != "" || src.Pkg != "" {
+			b.genField(ctx, src, dst, name, "same")
+			return
+		}
+		low := lowerFirst(name)
+		t := "int"
+		dst.Fields = append(dst.Fields, FDecl{Name: name, Type: t}, FDecl{Name: low, Type: t})
+		src.Fields = append(src.Fields, FDecl{Name: name, Type: t}, FDecl{Name: low, Type: t})
+		other := fmt.Sprintf("Other%d", b.next())
+		target := low
+		if b.chance(0.5) {
+			target = name
+		}
+		kind := b.pick(map[string]int{"map": 4, "literal": 3, "skip": 2, "mapmiscased": 3})
+		switch kind {
+		case "map":
+			src.Fields = append(src.Fields, FDecl{Name: other, Type: t})
+			m.Notations = append(m.Notations, Notation{Name: "map", Args: []string{joinPath(ctx.srcPath, other), joinPath(ctx.dstPath, target)}})
+		case "mapmiscased":
+			// the destination of the notation is spelled in a case that matches NO field exactly
+			src.Fields = append(src.Fields, FDecl{Name: other, Type: t})
+			m.Notations = append(m.Notations, Notation{Name: "map", Args: []string{joinPath(ctx.srcPath, other), joinPath(ctx.dstPath, strings.ToUpper(name))}})
+		case "literal":
+			m.Notations = append(m.Notations, Notation{Name: "literal", Args: []string{joinPath(ctx.dstPath, target), "4242"}})
+		case "skip":
+			m.Notations = append(m.Notations, Notation{Name: "skip", Args: []string{joinPath(ctx.dstPath, target)}})
+		}
+		b.addProbe(ctx, name, "twin", t, t, kind+"/"+target)
+		b.addProbe(ctx, low, "twin", t, t, kind+"/"+target)
 	case "blank":
 		// blank padding fields: can be neither read nor assigned, the fields after them must still be handled
 		t := []string{"int32", "[0]func()", "struct{}", "string"}[b.R.Intn(4)]
